@@ -16,7 +16,7 @@ IO_ENCODE = r'^ntex_io::.*IoRef>::encode$'
 def queue_head(F, R):
     hr = F.one(r'^io::DispatcherState::<P, U>::handle_result$')
     encs = [(bi, t) for bi, t in hr.calls_to(IO_ENCODE)]
-    R.ob('C04.queue-head', 'handle_result|encode-sites', len(encs) == 2, 'found %d response writes in handle_result' % len(encs))
+    R.ob('C04.queue-head', 'handle_result|encode-sites', len(encs) >= 1, 'found %d response writes in handle_result' % len(encs))
     # idx == 0 edge
     head_edges = []
     for sb in sorted(hr.live):
@@ -61,7 +61,7 @@ def queue_head(F, R):
     # pops advance base
     pops = [bi for bi, t, ap in calls_on_field(hr, r'VecDeque::<T, A>::pop_front$', 'queue')] or [bi for bi, t in hr.calls_to(r'VecDeque::<T, A>::pop_front$')]
     sets = {bi for bi, t in hr.calls_to(r'^std::cell::Cell::<T>::set$') if (call_recv_path(hr, t, 0) or ('',))[-1] == 'base'}
-    R.ob('C04.queue-head', 'handle_result|pop-sites', len(pops) == 2, 'found %d pops of the response queue' % len(pops))
+    R.ob('C04.queue-head', 'handle_result|pop-sites', len(pops) >= 1, 'found %d pops of the response queue' % len(pops))
     for k, pb in enumerate(pops):
         nxt = hr.reachable_after(pb, avoid=sets)
         bad = (set(pops) | set(hr.returns()) | {bi for bi, t in encs}) & nxt
@@ -79,15 +79,17 @@ def queue_head(F, R):
     # (completed responses parked behind the head are written now; otherwise they and everything after them are stuck)
     fronts = [bi for bi, t in hr.calls_to(r'VecDeque::<T, A>::front_mut$|VecDeque::<T, A>::front$')]
     for s_, h, nh in head_edges:
-        head_pops = [pb for pb in pops if pb not in hr.reachable_after(pb)]
+        head_pops = [pb for pb in pops if pb in hr.reachable(h, avoid=[nh])]
         if not head_pops or not fronts:
             R.ob('C04.queue-head', 'handle_result|head|parked-responses-drained-before-return', False, 'head pop / drain loop not found', hr.loc(h))
             continue
-        hp = head_pops[0]
-        tgt = hr.blocks[hp]['term'].get('target', hp)
-        skipping = [r_ for r_ in hr.returns() if r_ in hr.reachable(tgt, avoid=fronts)]
+        # after every pop on the head side (the head's own slot, or a drained one) the next front is examined before returning
+        skipping = []
+        for hp in head_pops:
+            tgt = hr.blocks[hp]['term'].get('target', hp)
+            skipping += [r_ for r_ in hr.returns() if r_ in hr.reachable(tgt, avoid=fronts)]
         R.ob('C04.queue-head', 'handle_result|head|parked-responses-drained-before-return', not skipping,
-             'after the oldest request completed the function can return without looking at the next slots: responses that finished earlier stay parked forever', hr.loc(hp))
+             'after the oldest request completed the function can return without looking at the next slots: responses that finished earlier stay parked forever', hr.loc(head_pops[0]))
     # call_service inline fast path
     cs = F.one(r'^io::DispatcherInner::<P, C, U, E>::call_service$')
     encs = [(bi, t) for bi, t in cs.calls_to(IO_ENCODE)]
